@@ -16,26 +16,26 @@ COMMON_ASSUMPTIONS = [
 # (profile, sequences, ops per sequence)
 Q = lambda *l: list(l)
 PROPS = {
-    "C01": dict(level="proof", quick=Q(("moves", 480, 150), ("mixed", 320, 150), ("pointers", 80, 150), ("events", 240, 150), ("locks", 320, 200)), thorough=Q(("moves", 1500, 500), ("mixed", 800, 500), ("batch", 400, 500), ("pointers", 200, 300), ("relations", 400, 400))),
-    "C02": dict(level="proof", quick=Q(("churn", 480, 200), ("mixed", 240, 150), ("cache", 240, 150), ("relations", 240, 150)), thorough=Q(("churn", 1500, 600), ("mixed", 600, 500), ("reset", 400, 400))),
-    "C03": dict(level="proof", quick=Q(("queries", 480, 200), ("cache", 240, 150), ("batch", 320, 200)), thorough=Q(("queries", 1500, 500), ("cache", 600, 400), ("batch", 400, 400), ("relations", 400, 400))),
+    "C01": dict(level="proof", quick=Q(("moves", 480, 150), ("mixed", 320, 150), ("pointers", 80, 150), ("events", 240, 150), ("locks", 320, 200)), thorough=Q(("moves", 6000, 500), ("mixed", 3200, 500), ("batch", 1600, 500), ("pointers", 800, 300), ("relations", 1600, 400))),
+    "C02": dict(level="proof", quick=Q(("churn", 480, 200), ("mixed", 240, 150), ("cache", 240, 150), ("relations", 240, 150)), thorough=Q(("churn", 6000, 600), ("mixed", 2400, 500), ("reset", 1600, 400))),
+    "C03": dict(level="proof", quick=Q(("queries", 480, 200), ("cache", 240, 150), ("batch", 320, 200)), thorough=Q(("queries", 6000, 500), ("cache", 2400, 400), ("batch", 1600, 400), ("relations", 1600, 400))),
     "C04": dict(level="proof", quick=Q(), thorough=Q()),
-    "C05": dict(level="proof", quick=Q(("relations", 560, 200), ("mixed", 240, 150), ("reset", 240, 150)), thorough=Q(("relations", 1500, 500), ("mixed", 600, 500), ("batch", 400, 400))),
-    "C06": dict(level="proof", quick=Q(("relations", 480, 200), ("cache", 240, 150), ("reset", 320, 200)), thorough=Q(("relations", 1500, 500), ("cache", 600, 400), ("reset", 400, 400))),
-    "C07": dict(level="proof", quick=Q(("cache", 560, 200), ("relations", 240, 150)), thorough=Q(("cache", 1500, 500), ("relations", 600, 400), ("reset", 400, 400), ("batch", 400, 400))),
-    "C08": dict(level="proof", quick=Q(("batch", 560, 200), ("mixed", 240, 150)), thorough=Q(("batch", 1500, 500), ("mixed", 600, 400), ("cache", 400, 400))),
-    "C09": dict(level="proof", quick=Q(("locks", 480, 200), ("queries", 240, 150)), thorough=Q(("locks", 1200, 500), ("queries", 600, 400), ("mixed", 400, 400))),
-    "C10": dict(level="proof", quick=Q(("faults", 560, 200), ("mixed", 240, 150)), thorough=Q(("faults", 1500, 500), ("mixed", 600, 400), ("relations", 400, 400))),
-    "C11": dict(level="proof", quick=Q(("events", 560, 200), ("batch", 240, 150)), thorough=Q(("events", 1500, 500), ("batch", 600, 400), ("relations", 400, 400))),
-    "C12": dict(level="proof", quick=Q(("events", 560, 200)), thorough=Q(("events", 1500, 500), ("mixed", 600, 400))),
+    "C05": dict(level="proof", quick=Q(("relations", 560, 200), ("mixed", 240, 150), ("reset", 240, 150)), thorough=Q(("relations", 6000, 500), ("mixed", 2400, 500), ("batch", 1600, 400))),
+    "C06": dict(level="proof", quick=Q(("relations", 480, 200), ("cache", 240, 150), ("reset", 320, 200)), thorough=Q(("relations", 6000, 500), ("cache", 2400, 400), ("reset", 1600, 400))),
+    "C07": dict(level="proof", quick=Q(("cache", 560, 200), ("relations", 240, 150)), thorough=Q(("cache", 6000, 500), ("relations", 2400, 400), ("reset", 1600, 400), ("batch", 1600, 400))),
+    "C08": dict(level="proof", quick=Q(("batch", 560, 200), ("mixed", 240, 150)), thorough=Q(("batch", 6000, 500), ("mixed", 2400, 400), ("cache", 1600, 400))),
+    "C09": dict(level="proof", quick=Q(("locks", 480, 200), ("queries", 240, 150)), thorough=Q(("locks", 4800, 500), ("queries", 2400, 400), ("mixed", 1600, 400))),
+    "C10": dict(level="proof", quick=Q(("faults", 560, 200), ("mixed", 240, 150)), thorough=Q(("faults", 6000, 500), ("mixed", 2400, 400), ("relations", 1600, 400))),
+    "C11": dict(level="proof", quick=Q(("events", 560, 200), ("batch", 240, 150)), thorough=Q(("events", 6000, 500), ("batch", 2400, 400), ("relations", 1600, 400))),
+    "C12": dict(level="proof", quick=Q(("events", 560, 200)), thorough=Q(("events", 6000, 500), ("mixed", 2400, 400))),
     "C13": dict(level="other", quick=Q(), thorough=Q()),
-    "C14": dict(level="other", quick=Q(("pointers", 240, 200)), thorough=Q(("pointers", 400, 500))),
-    "C15": dict(level="proof", quick=Q(("reset", 560, 200)), thorough=Q(("reset", 1500, 500), ("cache", 400, 400))),
-    "C16": dict(level="proof", quick=Q(("mixed", 240, 150), ("locks", 720, 200), ("relations", 320, 200)), thorough=Q(("mixed", 400, 400), ("locks", 400, 400), ("relations", 600, 400))),
-    "C17": dict(level="proof", quick=Q(("churn", 320, 200), ("reset", 240, 150)), thorough=Q(("churn", 1000, 500), ("reset", 600, 400))),
+    "C14": dict(level="other", quick=Q(("pointers", 240, 200)), thorough=Q(("pointers", 1600, 500))),
+    "C15": dict(level="proof", quick=Q(("reset", 560, 200)), thorough=Q(("reset", 6000, 500), ("cache", 1600, 400))),
+    "C16": dict(level="proof", quick=Q(("mixed", 240, 150), ("locks", 720, 200), ("relations", 320, 200)), thorough=Q(("mixed", 1600, 400), ("locks", 1600, 400), ("relations", 2400, 400))),
+    "C17": dict(level="proof", quick=Q(("churn", 320, 200), ("reset", 240, 150)), thorough=Q(("churn", 4000, 500), ("reset", 2400, 400))),
     "C18": dict(level="proof", quick=Q(), thorough=Q()),
-    "C19": dict(level="other", quick=Q(("churn", 320, 120), ("reset", 240, 120)), thorough=Q(("churn", 600, 300), ("reset", 400, 300))),
-    "C20": dict(level="proof", quick=Q(("resources", 400, 200)), thorough=Q(("resources", 800, 500), ("mixed", 300, 300))),
+    "C19": dict(level="other", quick=Q(("churn", 320, 120), ("reset", 240, 120)), thorough=Q(("churn", 2400, 300), ("reset", 1600, 300))),
+    "C20": dict(level="proof", quick=Q(("resources", 400, 200)), thorough=Q(("resources", 3200, 500), ("mixed", 1200, 300))),
 }
 
 def level_of(pid):
